@@ -314,7 +314,14 @@ func (rs *rowStore) processInserts(offsetsBySource common.OffsetsBySource, stop 
 
 			// force flush before processing any more inserts
 			offsetsBySource = ms.offsetsBySource
-			ms = flush(false)
+			if ms.tree.Length() == 0 {
+				// nothing in memory, but still rewrite the file with the new fields
+				// so that the data of removed fields does not survive on disk (and
+				// come back if a field of the same definition is added again later)
+				ms, _ = rs.processFlush(ms, false)
+			} else {
+				ms = flush(false)
+			}
 
 			if ms == nil {
 				// nothing flushed, create a new memstore to pick up new fields
